@@ -371,11 +371,13 @@ void ThreadPool::threadProc(ThreadToken thread_token)
         std::unique_lock<std::mutex> lk(d_->lock);
 
         auto t = d_->threads_cabinet.free(thread_token);
-        TBOX_ASSERT(t != nullptr);
-        d_->wp_loop->runInLoop(
-            [t]{ t->join(); delete t; },
-            "ThreadPool::threadProc, join and delete it"
-        );
+        //! 如果为空，说明 cleanup() 已抢先将本线程取走，由它负责 join() 与 delete
+        if (t != nullptr) {
+            d_->wp_loop->runInLoop(
+                [t]{ t->join(); delete t; },
+                "ThreadPool::threadProc, join and delete it"
+            );
+        }
         //! 这个操作放到最后来做是为了减少主线程join()的等待时长
     }
 }
